@@ -210,6 +210,24 @@ pub fn each(tier: Tier, tag_filter: Option<&str>, f: &mut dyn FnMut(&Ladder) -> 
             p.push(es(calln("rd", vec![])));
             emit!("many-globals-big", "scope", m, 10_000, p);
         }
+        // names of every length around each power of two that share all but their last character (and one that
+        // is a strict prefix): each must resolve to its own variable, as a global and as a local
+        for m in sizes(tier, &[]) {
+            if m > 4_100 {
+                continue;
+            }
+            let stem: String = (0..m).map(|i| (b'a' + (i % 26) as u8) as char).collect();
+            let (n1, n2, n3, n4) = (format!("{stem}a"), format!("{stem}b"), stem.clone(), format!("{stem}_"));
+            let decls = vec![let_(&n1, int(1)), let_(&n2, int(2)), let_(&n3, int(3)), let_(&n4, int(4))];
+            let mut p = decls.clone();
+            p.push(es(assign(id(&n2), int(20))));
+            p.push(es(array(vec![id(&n1), id(&n2), id(&n3), id(&n4)])));
+            emit!("similar-names", "scope", m, 100_000, p);
+            let mut body = decls.clone();
+            body.push(es(assign(id(&n3), int(30))));
+            body.push(es(array(vec![id(&n1), id(&n2), id(&n3), id(&n4)])));
+            emit!("similar-names", "scope", m, 100_000, vec![let_(&n1, int(100)), es(func("f", &[], body)), es(array(vec![calln("f", vec![]), id(&n1)]))]);
+        }
         // nested blocks, one local per level, innermost reads all of them
         for m in (1..=40).chain([63, 64, 65, 127, 128, 129, 255, 256, 257, 400]) {
             for in_func in [false, true] {
@@ -229,6 +247,29 @@ pub fn each(tier: Tier, tag_filter: Option<&str>, f: &mut dyn FnMut(&Ladder) -> 
     }
     // ---- consts: constant-pool indices
     if want("consts") {
+        // string and number constants that agree in all but their last character / digit
+        for m in sizes(tier, &[]) {
+            if m > 4_100 {
+                continue;
+            }
+            let stem: String = (0..m).map(|i| (b'a' + (i % 26) as u8) as char).collect();
+            let v = vec![string(&format!("{stem}a")), string(&format!("{stem}b")), string(&stem), string(&format!("{stem}a")), string(&format!("{stem}é"))];
+            let mut p = vec![let_("x", array(v.clone()))];
+            p.push(es(assign(index(id("x"), int(0)), string("changed"))));
+            p.push(es(array(vec![id("x"), array(v)])));
+            emit!("similar-constants", "consts", m, 100_000, p.clone());
+            emit!("similar-constants-local", "consts", m, 100_000, vec![es(call(func("", &[], p), vec![]))]);
+        }
+        for digits in 1..=17usize {
+            let stem: String = (0..digits).map(|i| (b'1' + (i % 9) as u8) as char).collect();
+            let a: i64 = format!("{stem}1").parse().unwrap();
+            let b: i64 = format!("{stem}2").parse().unwrap();
+            let c: i64 = stem.parse().unwrap();
+            let fl = |t: &str| flt(t.parse::<f64>().unwrap());
+            let p = vec![es(array(vec![int(a), int(b), int(c), int(a), fl(&format!("{stem}.25")), fl(&format!("{stem}.5")), fl(&format!("0.{stem}1")), fl(&format!("0.{stem}2"))]))];
+            emit!("similar-constants", "consts", digits, 100_000, p.clone());
+            emit!("similar-constants-local", "consts", digits, 100_000, vec![es(call(func("", &[], p), vec![]))]);
+        }
         for m in sizes(tier, &[(250, 260), (65_520, 65_545)]) {
             for kind in 0..3 {
                 if kind > 0 && m > 5_000 {
@@ -284,7 +325,7 @@ pub fn check(sh: &mut Shard, class: &str, l: &Ladder, static_check: bool) {
         sh.count("excluded:U9-too-large");
         return;
     }
-    sh.nontrivial(&format!("{}:{}", l.family, text.len()));
+    sh.nontrivial(&text);
     sh.count("ladder-rungs-compared");
     if let Some(why) = disagree(&model, &imp) {
         if !known_input(sh, &text) {
